@@ -209,3 +209,6 @@ package turbotunnel
 //@ func (id ClientID) String() (s string)
 //@   props C05
 //@   at call EncodeToString assert {textual-form-covers-all-eight-bytes} len(arg0) == 8
+//
+// ---- lock discipline (C20) ----
+//@ guarded ClientMap.inner by lock
